@@ -79,9 +79,16 @@ class IndicatorResourceUtilization(Indicator):
         self.name = f"Utilization ({self.resource.name})"
         self.bounds = (0, 100)
 
+        # the busy intervals of a cumulative worker are those of its elementary workers
+        if isinstance(self.resource, CumulativeWorker):
+            workers = self.resource._cumulative_workers
+        else:
+            workers = [self.resource]
+
         durations = [
             interv_up - interv_low
-            for interv_low, interv_up in self.resource._busy_intervals.values()
+            for worker in workers
+            for interv_low, interv_up in worker._busy_intervals.values()
         ]
 
         predefined_horiz = processscheduler.base.active_problem.horizon
@@ -105,9 +112,16 @@ class IndicatorNumberTasksAssigned(Indicator):
 
         self.name = f"Nb Tasks Assigned ({self.resource.name})"
         # this list contains
+        # the busy intervals of a cumulative worker are those of its elementary workers
+        if isinstance(self.resource, CumulativeWorker):
+            workers = self.resource._cumulative_workers
+        else:
+            workers = [self.resource]
+
         scheduled_tasks = [
             z3.If(start > -1, 1, 0)
-            for start, end in self.resource._busy_intervals.values()
+            for worker in workers
+            for start, end in worker._busy_intervals.values()
         ]
 
         expression = z3.Sum(scheduled_tasks)
